@@ -12,7 +12,7 @@ COQ_DEPS = ["Common/ListX.v", "Common/ObsHash.v", "Generated/Tables.v", "Model/R
 COQ_IMPORTS = "From Mesa Require Import Model.Registry."
 COQ_CASE_TYPE = "case"
 COQ_RUN = "run_case"
-TABLE_CONSTRUCTS = ["agent_first_id", "deregister_order", "register_order", "remove_suppresses_keyerror"]
+TABLE_CONSTRUCTS = ["agent_first_id", "deregister_order", "register_order", "remove_suppresses_keyerror", "registry_skeleton"]
 RULE = ("histories = 1-3 coexisting models (more via new_model) + 4-40 ops out of: constructor call, create_agents "
         "(scalar / list / tuple / ndarray / str argument, positional or keyword, length = n and != n, n in -1..4), "
         "agent.remove (also of removed agents), model.deregister_agent, remove_all_agents, in-place shuffle/sort of "
@@ -44,12 +44,20 @@ SOURCE_FUNCS = [("mesa/agent.py", "Agent.__init__"), ("mesa/agent.py", "Agent.re
                 ("mesa/model.py", "Model.agents_by_type"), ("mesa/agent.py", "AgentSet.do"), ("mesa/agent.py", "AgentSet.shuffle_do"),
                 ("mesa/agent.py", "AgentSet.map"), ("mesa/agent.py", "AgentSet.add"), ("mesa/agent.py", "AgentSet.remove"),
                 ("mesa/agent.py", "AgentSet.discard"), ("mesa/agent.py", "AgentSet._update")]
-NCLS = 8   # A, B(A), C(B), D, mesa.Agent, and three classes overriding remove(): E(A), F(D), G(A)
-OVERRIDING = (5, 6, 7)
+NCLS = 9   # A, B(A), C(B), D, mesa.Agent, and four classes overriding remove(): E(A), F(D), G(A), H(A)
+OVERRIDING = (5, 6, 7, 8)
 
 
 def _gen_cls(rng):
-    return rng.randrange(5) if rng.random() < 0.8 else rng.choice(OVERRIDING)
+    return rng.randrange(5) if rng.random() < 0.75 else rng.choice(OVERRIDING)
+
+
+def _gen_val(rng, sim, c):
+    if c == 4:
+        return 0
+    if c == 8:      # the creation index of the agent this one will remove along with itself (may not exist yet)
+        return rng.randrange(len(sim.born) + 2)
+    return rng.randint(0, 9)
 E_KEY = 1
 
 
@@ -143,7 +151,7 @@ def _gen_act(rng, sim, m):
     if r < 0.75:
         tm = m if rng.random() < 0.75 else rng.randrange(sim.n)
         c = _gen_cls(rng)
-        return ["create", tm, c, 0 if c == 4 else rng.randint(0, 9)]
+        return ["create", tm, c, _gen_val(rng, sim, c)]
     if r < 0.9:
         tm = m if rng.random() < 0.75 else rng.randrange(sim.n)
         c = _gen_cls(rng)
@@ -162,7 +170,7 @@ def _gen_op(rng, sim):
         r = 0.45 + r * 0.3
     if r < 0.25 or not sim.born:
         c = _gen_cls(rng)
-        return ["create", m, c, 0 if c == 4 else rng.randint(0, 9)]
+        return ["create", m, c, _gen_val(rng, sim, c)]
     if r < 0.43:
         c = _gen_cls(rng)
         n = rng.choice([0, 1, 2, 2, 3, 3, 4, -1])
@@ -241,7 +249,7 @@ def gen_cases(rng, tier):
 
 _ALPHABET = [
     ["create", 0, 0, 1], ["create", 0, 2, 2], ["create", 1, 0, 3], ["create", 0, 4, 0],
-    ["create", 0, 5, 4], ["create", 0, 6, 5], ["create", 1, 7, 6],
+    ["create", 0, 5, 4], ["create", 0, 6, 5], ["create", 1, 7, 6], ["create", 0, 8, 0],
     ["create_many", 0, 1, 2, "list", [5, 6], "pos"],
     ["create_many", 1, 2, 2, "tuple", [7], "kw"],
     ["remove", 0], ["remove", 1], ["remove", 2], ["deregister", 0],
@@ -268,7 +276,7 @@ def _expand(op, nkeys=8):
 
 
 def enumerate_cases(tier, broken=False):
-    """every sequence of length <= 3 (4 in the thorough tier) over 20 ops on two models"""
+    """every sequence of length <= 3 (4 in the thorough tier) over 21 ops on two models"""
     depth = 4 if tier == "thorough" else 3
     for d in range(1, depth + 1):
         for seq in itertools.product(range(len(_ALPHABET)), repeat=d):
@@ -330,8 +338,16 @@ class _Driver:
             def remove(self):
                 pass
 
+        class H(A):            # removes ANOTHER agent (the one whose creation index is self.val) after itself
+            def remove(self):
+                drv.note_super_remove(self)
+                super().remove()
+                p = drv.partner_of(self)
+                if p is not None and p is not self and p.model is self.model and p in self.model.agents:
+                    drv.nested_remove(p)
+
         self.suspend = 0
-        self.classes = [A, B, C, D, mesa.Agent, E, F, G]
+        self.classes = [A, B, C, D, mesa.Agent, E, F, G, H]
         self.cidx = {c: i for i, c in enumerate(self.classes)}
         self.models = [mesa.Model(seed=7 + i) for i in range(case["nmodels"])]
         self.born = []          # agents, index = key (strong references for the whole history)
@@ -425,6 +441,21 @@ class _Driver:
         m = self.s_model[self.kof(agent)]
         a = self.classes[c](self.models[m], v)
         self.adopt(a, m, c)
+
+    def partner_of(self, agent):
+        import numpy as np
+
+        v = getattr(agent, "val", None)
+        if isinstance(v, (int, np.integer)) and not isinstance(v, bool) and 0 <= int(v) < len(self.born):
+            return self.born[int(v)]
+        return None
+
+    def nested_remove(self, p):
+        k = self.kof(p)
+        if self.s_cls[k] not in OVERRIDING:
+            self.s_removed[k] = True
+            self.s_hidden.discard(k)
+        p.remove()     # dynamic dispatch: p may override remove() itself
 
     def note_super_remove(self, agent):
         k = self.kof(agent)
